@@ -285,13 +285,14 @@ fn handle_item(
                 handle_body(body, dest, subscope, file_context)?;
             }
         }
-        Item::AtMedia { args, body, pos: _ } => {
+        Item::AtMedia { args, body, pos } => {
             let args = args.evaluate(scope.clone())?;
             let mut atmedia = dest.start_atmedia(args.try_into()?);
             if let Some(body) = body {
                 let local = ScopeRef::sub(scope);
                 handle_body(body, &mut atmedia, local, file_context)?;
             }
+            atmedia.finish().at(pos)?;
         }
         Item::AtRule {
             name,
@@ -309,6 +310,7 @@ fn handle_item(
                     ScopeRef::sub(scope)
                 };
                 handle_body(body, &mut atrule, local, file_context)?;
+                atrule.finish().at(pos)?;
             } else {
                 dest.push_item(AtRule::new(name, args, None).into())
                     .at(pos)?;
